@@ -175,6 +175,57 @@ func init() {
 		in.call(fr, 0, mainFn, nil)
 		return in.intConst(0)
 	}
+	// verifMainOut(args): main() as a FRESH process - every package-level variable of the program is
+	// back to its initial state - with os.Args = args; returns what it wrote to standard output
+	// and its exit status. Natively a child process.
+	shims["verifMainOut"] = func(in *Interp, fr *frame, args []value) (res value) {
+		keepFiles, keepEnv := in.path.files, in.path.env
+		in.path.globals = map[*ssa.Global]*value{}
+		in.path.files, in.path.env = keepFiles, keepEnv
+		t := in.findType("os", "File")
+		mk := func() *value {
+			cell := in.zero(t)
+			p := &cell
+			in.path.side[p] = &stdoutState{failAt: -1}
+			return p
+		}
+		out := mk()
+		*in.osGlobal("Stdout") = out
+		*in.osGlobal("Stderr") = mk()
+		in.path.stdout = out
+		in.path.sigpipeIgnored = false
+		osArgs := []value{}
+		for _, a := range args[0].([]value) {
+			osArgs = append(osArgs, a)
+		}
+		*in.osGlobal("Args") = osArgs
+		var mainFn *ssa.Function
+		for _, p := range in.prog.AllPackages() {
+			if p.Pkg.Name() == "main" && p.Func("main") != nil && p.Func("GetApp") != nil {
+				mainFn = p.Func("main")
+			}
+		}
+		if mainFn == nil {
+			panic(unsupported{"verifMainOut: no main function"})
+		}
+		code := 0
+		func() {
+			defer func() {
+				if r := recover(); r != nil {
+					if e, ok := r.(exitPanic); ok {
+						code = e.code
+						return
+					}
+					panic(r)
+				}
+			}()
+			in.call(fr, 0, mainFn, nil)
+		}()
+		st := in.stdoutOf(out)
+		// the harness's own run continues in a fresh state as well
+		in.path.globals = map[*ssa.Global]*value{}
+		return tuple{normStr(&Rope{atoms: st.atoms}), in.intConst(int64(code))}
+	}
 	externals["os.Exit"] = func(in *Interp, fr *frame, args []value) value {
 		panic(exitPanic{code: in.toInt(args[0], "exit status")})
 	}
